@@ -263,7 +263,10 @@ class Application(MutableMapping[str | AppKey[Any], Any]):
             subsig = getattr(subapp, signame)
 
             async def handler(app: "Application") -> None:
-                await subsig.send(subapp)
+                if signame == "on_cleanup":
+                    await _send_collecting_errors(subsig, subapp)
+                else:
+                    await subsig.send(subapp)
 
             appsig = getattr(self, signame)
             appsig.append(handler)
@@ -356,7 +359,7 @@ class Application(MutableMapping[str | AppKey[Any], Any]):
         Should be called after shutdown()
         """
         if self.on_cleanup.frozen:
-            await self.on_cleanup.send(self)
+            await _send_collecting_errors(self.on_cleanup, self)
         else:
             # If an exception occurs in startup, ensure cleanup contexts are completed,
             # in this application and in its sub-applications (their contexts may have
@@ -426,6 +429,27 @@ class CleanupError(RuntimeError):
     @property
     def exceptions(self) -> list[BaseException]:
         return cast(list[BaseException], self.args[1])
+
+
+async def _send_collecting_errors(sig: _AppSignal, app: Application) -> None:
+    """Deliver a cleanup signal to every receiver even if some of them raise.
+
+    A receiver that raises (a cleanup context whose exit code fails, an
+    on_cleanup handler) must not keep the remaining receivers - in particular
+    the cleanup contexts of sub-applications - from running.
+    """
+    if not sig.frozen:
+        raise RuntimeError("Cannot send non-frozen signal.")
+    errors: list[BaseException] = []
+    for receiver in sig:
+        try:
+            await receiver(app)
+        except (Exception, asyncio.CancelledError) as exc:
+            errors.append(exc)
+    if errors:
+        if len(errors) == 1:
+            raise errors[0]
+        raise CleanupError("Multiple errors on cleanup stage", errors)
 
 
 _CleanupContextCallable = (
